@@ -15,7 +15,7 @@ PROPERTIES = {
              'external_body Labels::get_or_add_unchecked (HashMap::entry is outside Verus); fewer than 65535 labels.',
         out=['duke/src/class_reader.rs read_code opcode match (closure)', 'duke/src/class_reader/pool.rs', 'duke/src/visitor/implementations/tree.rs']),
     'C02': dict(
-        level='proof', verus=['cwrite', 'wjump', 'wpool'], kani=['flags'],
+        level='proof', verus=['cwrite', 'wjump', 'wpool', 'wencode'], kani=['flags'],
         technique=VERUS_TECH,
         claim='Unbounded proof, for the functions under contract only: every jump emitted by if_helper/goto_helper/switch_helper has exactly the narrow / wide / inverted-if+goto_w byte shape with the offset that lands on the label, '
               'the narrow form is chosen iff the offset fits i16, unresolved jumps reserve a slot whose recorded patch position and base are exact, put_i16_at/put_i32_at patch big-endian and touch nothing else, '
@@ -110,7 +110,7 @@ PROPERTIES = {
         note='Bounded stand-in, NOT a proof: Kani needs >300 s and >14 GB for one descriptor of length 1 (measured) and Verus has no str/Chars support, so the real functions are run natively on every input up to the stated bound and compared with an independent oracle; inputs beyond the bound are not covered. Real anyhow, scratch copy of the crate.',
         out=['strings longer than the bound', 'unicode names', 'signatures (check_valid accepts everything)']),
     'C16': dict(
-        level='proof', verus=['rlabels', 'cwrite', 'wjump', 'wpool', 'rskip', 'rbranch', 'rscan', 'rpool', 'rdecode', 'rframes', 'adiff', 'scope', 'c20len'], kani=[], enum=['desc', 'mapdesc'],
+        level='proof', verus=['rlabels', 'cwrite', 'wjump', 'wpool', 'wencode', 'rskip', 'rbranch', 'rscan', 'rpool', 'rdecode', 'rframes', 'adiff', 'scope', 'c20len'], kani=[], enum=['desc', 'mapdesc'],
         technique=VERUS_TECH + ': implicit safety obligations (overflow, index, unwrap, unreachable, termination)',
         claim='Unbounded proof of panic-freedom and termination for every function extracted for the other properties (Verus generates no-overflow, in-bounds, no-failing-unwrap, unreachable!() unreachable, decreases obligations for each). '
               'Partial: text parsers built on Peekable<Chars>/BufRead are outside the verifier and not covered.',
